@@ -6,6 +6,7 @@ every relative order of the timestamps and every pool saturation pattern within 
 """
 import asyncio
 import datetime
+import functools
 import itertools
 
 import basana as bs
@@ -48,7 +49,27 @@ class Monitor:
         self.trace.append((len(self.trace), kind, subject, handler, phase, self.d.now()))
 
 
-def make_handler(mon, name, nsusp, raises, extra=None):
+class CallableHandler:
+    """an event handler that is an object with `async def __call__` (no __name__ / __qualname__)"""
+    def __init__(self, fn):
+        self.fn = fn
+        self.hname = fn.hname
+
+    async def __call__(self, ev):
+        return await self.fn(ev)
+
+
+def make_handler(mon, name, nsusp, raises, extra=None, kind=0):
+    if kind:
+        h = make_handler(mon, name, nsusp, raises, extra)
+        if kind == 1:
+            async def with_tag(tag, ev):
+                return await h(ev)
+            p = functools.partial(with_tag, "tag")
+            p.hname = name
+            return p
+        return CallableHandler(h)
+
     async def handler(ev):
         mon.rec("event", ev, name, "start")
         if extra is not None:
@@ -75,8 +96,11 @@ def run_dispatcher(d):
 
 
 def scenario(ctx, props=("C12",), nsrc=2, nev=2, njobs=0, max_mc=3, derived=True, sniffers=True, dup=True,
-             susp=True, raising=True, job_from_handler=False, job_from_job=False, raising_job=False):
+             susp=True, raising=True, job_from_handler=False, job_from_job=False, raising_job=False,
+             handler_kinds=False, job_perms=True):
     P = set(props)
+    # what kind of callable the handlers are: plain coroutine functions, functools.partial objects, callable instances
+    hkind = ctx.choice("handler_callable_kind", 3) if handler_kinds else 0
     mc = ctx.int("max_concurrent", 1, max_mc)
     d = bs.backtesting_dispatcher(max_concurrent=mc)
     mon = Monitor(d)
@@ -107,7 +131,7 @@ def scenario(ctx, props=("C12",), nsrc=2, nev=2, njobs=0, max_mc=3, derived=True
         n = n if susp else 0
         r = r if raising else False
         nsusp_of[name] = n
-        return make_handler(mon, name, n, r, extra)
+        return make_handler(mon, name, n, r, extra, kind=hkind)
 
     def forward(ev):
         fe = Ev(ev.when, "fwd:" + ev.name)
@@ -176,7 +200,9 @@ def scenario(ctx, props=("C12",), nsrc=2, nev=2, njobs=0, max_mc=3, derived=True
         tjs = [ctx.dt("t_job%d" % i, T0 - datetime.timedelta(days=2), T_HI + datetime.timedelta(days=5))
                for i in range(njobs)]
         perms = list(itertools.permutations(range(njobs)))
-        perm = perms[ctx.choice("job_insertion_order", len(perms))]
+        # (with symbolic times every relative order of the times is covered whatever the insertion order: the
+        # permutation choice matters for the tie-breaking among equal times and is dropped for long job lists)
+        perm = perms[ctx.choice("job_insertion_order", len(perms))] if job_perms else perms[0]
         for i in perm:
             then = None
             if job_from_job and i == 0:
@@ -216,16 +242,21 @@ def scenario(ctx, props=("C12",), nsrc=2, nev=2, njobs=0, max_mc=3, derived=True
                 ctx.prove(r[5] == e.when, "C12 dispatcher.now() equals the event time while its handler runs")
             # stage order
             src_h = expected[src_of[id(e)]]
+            # (a handler that never ran was reported above; the stage order is asserted over those that did)
             if pre:
-                last_pre = max(r[0] for r in recs(e) if r[3] in pre and r[4] == "end")
-                first_src = min(r[0] for r in recs(e) if r[3] in src_h and r[4] == "start")
-                ctx.prove(last_pre < first_src, "C12 front-running handlers finish before the source's handlers start")
+                last_pre = max([r[0] for r in recs(e) if r[3] in pre and r[4] == "end"], default=None)
+                first_src = min([r[0] for r in recs(e) if r[3] in src_h and r[4] == "start"], default=None)
+                if last_pre is not None and first_src is not None:
+                    ctx.prove(last_pre < first_src,
+                              "C12 front-running handlers finish before the source's handlers start")
             starts = [recs(e, h, "start")[0][0] for h in src_h if recs(e, h, "start")]
             ctx.prove(starts == sorted(starts), "C12 source handlers start in subscription order")
             if post:
-                last_src = max(r[0] for r in recs(e) if r[3] in src_h and r[4] == "end")
-                first_post = min(r[0] for r in recs(e) if r[3] in post and r[4] == "start")
-                ctx.prove(last_src < first_post, "C12 trailing catch-all handlers start after the source's handlers")
+                last_src = max([r[0] for r in recs(e) if r[3] in src_h and r[4] == "end"], default=None)
+                first_post = min([r[0] for r in recs(e) if r[3] in post and r[4] == "start"], default=None)
+                if last_src is not None and first_post is not None:
+                    ctx.prove(last_src < first_post,
+                              "C12 trailing catch-all handlers start after the source's handlers")
         # global time order over the whole trace, clock never moves backwards
         prev = None
         for r in tr:
